@@ -4,6 +4,7 @@ import (
 	"bufio"
 	"fmt"
 	"io"
+	"os"
 	"os/exec"
 	"strconv"
 	"strings"
@@ -28,6 +29,10 @@ type Model map[string]interface{}
 
 // ground axioms instantiated per uninterpreted-function application.
 var ufAxioms = map[string]func(app *Term) []*Term{
+	"rsasign": func(a *Term) []*Term { return []*Term{Not(Eq(a, StrC("")))} },
+	"digest":  func(a *Term) []*Term { return []*Term{Not(Eq(a, StrC("")))} },
+	"sha1":    func(a *Term) []*Term { return []*Term{Not(Eq(a, StrC("")))} },
+	"sha256":  func(a *Term) []*Term { return []*Term{Not(Eq(a, StrC("")))} },
 	"b64": func(a *Term) []*Term {
 		x := a.Args[0]
 		return []*Term{
@@ -52,6 +57,9 @@ var ufAxioms = map[string]func(app *Term) []*Term{
 		}
 	},
 }
+
+// SlowLog, when set, receives every query that took longer than 2 s.
+var SlowLog = os.Getenv("VRT_SLOWLOG")
 
 // Solver is one live solver process fed over stdin.
 type Solver struct {
@@ -209,7 +217,16 @@ func (s *Solver) Check(asserts []*Term, wantModel bool, hardTimeout time.Duratio
 	q.WriteString("(check-sat)\n")
 	start := time.Now()
 	st := stat(s.Name)
-	defer func() { atomic.AddInt64(&st.Nanos, int64(time.Since(start))) }()
+	defer func() {
+		el := time.Since(start)
+		atomic.AddInt64(&st.Nanos, int64(el))
+		if SlowLog != "" && el > 2*time.Second {
+			if f, err := os.OpenFile(SlowLog, os.O_APPEND|os.O_CREATE|os.O_WRONLY, 0o644); err == nil {
+				fmt.Fprintf(f, ";;;; %s %.1fs\n%s\n", s.Name, el.Seconds(), q.String())
+				f.Close()
+			}
+		}
+	}()
 	if _, err := io.WriteString(s.in, q.String()); err != nil {
 		s.dead = true
 		atomic.AddInt64(&st.Errors, 1)
